@@ -10,6 +10,7 @@
 mod c08;
 mod c14;
 mod c15;
+mod c17;
 mod c18;
 mod common;
 
@@ -106,6 +107,7 @@ fn main() {
             "c08" => c08::replay(&v),
             "c18" => c18::replay(&v),
             "c14" => c14::replay(&v),
+            "c17" => c17::replay(&v),
             k => harness_error(&format!("unknown replay kind {k}")),
         };
         match vs.first() {
@@ -181,6 +183,16 @@ fn main() {
                 "which lines before the NUL are still printed legitimately depends on the strategy and read history (the property allows dropping or cutting off); only prefix-ness, NUL-freeness and the presence/absence of the notice are demanded".into(),
             ],
             |sub, acc, ctx, thorough| c14::run_workload(sub, acc, ctx, thorough),
+        ),
+        "C17" => drive(
+            &opts,
+            "exploration",
+            "c17",
+            opts.cases(120, 4000),
+            jobs,
+            "CLI leg: per workload a generated text (1-30 lines, 1 in 8 400-1600 lines; ASCII, BMP, astral) encoded as UTF-16LE/BE with BOM or by -E label, optionally with an odd trailing byte, searched by the real rg (line or -U multi-line pattern, --no-mmap mostly) under syscall fault plans: none, read fragmentation, EINTR at each of the first six read indices, and 10 (quick) / 40 (thorough) seeded (EINTR index < 60, fragmentation seed) pairs. Oracle: stdout, exit status and empty stderr identical to rg on the UTF-8 equivalent at the same path.",
+            vec!["the CLI leg covers UTF-16 only (decoded by hand for the reference); other encodings are covered by the library leg".into()],
+            |sub, acc, ctx, thorough| c17::run_workload(sub, None, acc, ctx, thorough),
         ),
         "C18" => drive(
             &opts,
